@@ -75,10 +75,15 @@ fn run_case(case: &J, config: &Config) -> Result<J, String> {
         .unwrap_or_default();
     let mut names = vec![];
     for e in &errors {
+        // warnings (e.g. unassign_variable, unsigned_arith_shift) do not stop a build
+        if !e.is_error() {
+            continue;
+        }
         let d = format!("{e:?}");
         let name: String = d.chars().take_while(|c| c.is_alphanumeric() || *c == '_').collect();
         if !allow.contains(&name) {
-            names.push(name);
+            let msg: String = format!("{e}").chars().take(160).collect();
+            names.push(format!("{name}[{msg}]"));
         }
     }
     if !names.is_empty() {
